@@ -175,6 +175,80 @@ func runC19Cache(c C19Cache, info *kit.Info) *kit.Finding {
 	return nil
 }
 
+// The history against switching the cache off and on again (capacity 0 disables it without forgetting anything):
+// handshakes recorded before stay refused afterwards, whatever ran in between, as long as fewer handshakes than
+// the capacity were ever added - in every sequential order of these calls nothing is discarded.
+type C19CacheZero struct {
+	Old    int   `json:"old"`
+	Adders int   `json:"adders"`
+	Adds   int   `json:"adds"`
+	Seed   int64 `json:"seed"`
+}
+
+func genC19CacheZero(t *rapid.T) C19CacheZero {
+	return C19CacheZero{Old: rapid.IntRange(1, 200).Draw(t, "old"), Adders: rapid.IntRange(2, 16).Draw(t, "adders"), Adds: rapid.IntRange(50, 1000).Draw(t, "adds"), Seed: rapid.Int64Range(1, 1<<40).Draw(t, "seed")}
+}
+
+func runC19CacheZero(c C19CacheZero, info *kit.Info) *kit.Finding {
+	const capacity = 20000
+	if c.Adders*c.Adds > 12000 {
+		c.Adds = 12000 / c.Adders
+	}
+	rc := service.NewReplayCache(capacity)
+	for i := 0; i < c.Old; i++ {
+		if !rc.Add("old", kit.DetBytes(c.Seed+int64(i), 32)) {
+			return kit.Violation("cache:fresh-refused", "fresh handshake %d refused by an empty cache", i)
+		}
+	}
+	var wg sync.WaitGroup
+	var done atomic.Bool
+	var toggles atomic.Int64
+	resizer := make(chan struct{})
+	go func() {
+		defer close(resizer)
+		for !done.Load() {
+			rc.Resize(0)
+			rc.Resize(capacity)
+			toggles.Add(1)
+		}
+	}()
+	var refused atomic.Int64
+	for g := 0; g < c.Adders; g++ {
+		wg.Add(1)
+		go func(g int) {
+			defer wg.Done()
+			for i := 0; i < c.Adds; i++ {
+				if !rc.Add("new", kit.DetBytes(c.Seed+1_000_000+int64(g)*100_000+int64(i), 32)) {
+					refused.Add(1)
+				}
+			}
+		}(g)
+	}
+	wg.Wait()
+	done.Store(true)
+	<-resizer
+	rc.Resize(capacity)
+	if n := refused.Load(); n > 0 {
+		return kit.Violation("cache:fresh-refused", "%d handshakes never presented before were refused while the cache was switched off and on", n)
+	}
+	accepted := 0
+	for i := 0; i < c.Old; i++ {
+		if rc.Add("old", kit.DetBytes(c.Seed+int64(i), 32)) {
+			accepted++
+		}
+	}
+	if accepted > 0 {
+		return kit.Violation("cache:history-lost", "%d of %d handshakes recorded earlier were accepted again after %d goroutines added %d fresh ones while the cache was switched off and on %d times (capacity %d was never reached: no sequential order of these calls forgets anything)", accepted, c.Old, c.Adders, c.Adders*c.Adds, toggles.Load(), capacity)
+	}
+	info.NonTrivial, info.Steps = toggles.Load() >= 2, c.Adders*c.Adds
+	return nil
+}
+
+func TestC19_ReplayCacheZero(t *testing.T) {
+	p := kit.Prop[C19CacheZero]{ID: "C19", Name: "ReplayCacheZero", Quick: 100, Thorough: 10000, Gen: genC19CacheZero, Run: runC19CacheZero, Journal: true}
+	p.Execute(t)
+}
+
 func TestC19_ReplayCache(t *testing.T) {
 	p := kit.Prop[C19Cache]{ID: "C19", Name: "ReplayCache", Quick: 200, Thorough: 10000, Gen: genC19Cache, Run: runC19Cache, Journal: true}
 	p.Execute(t)
